@@ -94,14 +94,16 @@ def newcomerWins (ing prev : Inst) : Bool :=
   else if prev.id < ing.id then false
   else true
 
+/-- the candidate after the newcomer `i` met the current candidate -/
+def pickW (i : Inst) : Option Inst → Inst
+  | none => i
+  | some p => if newcomerWins i p then i else p
+
 /-- winner of `tok` among the non-LEFT claimants, scanning entries in the given order. -/
 def winner (tok : Nat) : Desc → Option Inst → Option Inst
   | [], w => w
   | i :: rest, w =>
-    if i.state ≠ .LEFT ∧ i.tokens.contains tok then
-      match w with
-      | none => winner tok rest (some i)
-      | some p => winner tok rest (some (if newcomerWins i p then i else p))
+    if i.state ≠ .LEFT ∧ i.tokens.contains tok = true then winner tok rest (some (pickW i w))
     else winner tok rest w
 
 /-- `resolveConflicts`: every entry keeps exactly the tokens it wins, sorted and duplicate-free. -/
